@@ -137,6 +137,13 @@ impl ModuleCollector {
 /// This is used by both the CLI and the LSP to typecheck multi-file projects.
 pub fn resolve_import_path(base_dir: &Path, import: &ImportDecl) -> Option<PathBuf> {
     let (path, is_absolute, parent_levels) = match &import.kind {
+        // `import a::b::item`: the last segment names the imported item, the module is `a::b` (same rule as the
+        // command-line compiler's module collection). A single segment (`import a`) names the module itself.
+        ImportKind::Module(p) if p.segments.len() > 1 => (
+            p.segments[..p.segments.len() - 1].to_vec(),
+            p.is_absolute,
+            p.parent_levels,
+        ),
         ImportKind::Module(p) if !p.segments.is_empty() => (p.segments.clone(), p.is_absolute, p.parent_levels),
         ImportKind::From { module, .. } if !module.segments.is_empty() => {
             (module.segments.clone(), module.is_absolute, module.parent_levels)
